@@ -226,33 +226,56 @@ func (ex *Exec) raceCheck(name string) {
 	if n == 0 {
 		return
 	}
-	if n > 20000 {
-		ex.unsupported("too many events for the race encoding")
-	}
-	ts := make([]*Term, n)
-	for i := range ts {
-		ts[i] = tt.Var(fmt.Sprintf("ts!%s!%d", name, i), W)
+	isSync := func(k int) bool { return k != evRead && k != evWrite }
+	// timestamps exist for synchronisation events only; an access lives in the segment between
+	// the synchronisation events that surround it in its thread
+	ts := map[int]*Term{}
+	for i, e := range l.events {
+		if isSync(e.kind) {
+			ts[i] = tt.Var(fmt.Sprintf("ts!%s!%d", name, i), W)
+		}
 	}
 	var cons []*Term
-	// program order per thread; spawn edges
-	last := map[int]int{}
-	first := map[int]int{}
-	for i, e := range l.events {
-		if p, ok := last[e.thread]; ok {
-			cons = append(cons, tt.Ult(ts[p], ts[i]))
-		} else {
-			first[e.thread] = i
-		}
-		last[e.thread] = i
-	}
+	lastSync := map[int]int{}  // thread -> last sync event index
+	firstSync := map[int]int{} // thread -> first sync event index
+	spawnOf := map[int]int{}   // child thread -> spawn event index
+	prevSync := make([]int, n) // for accesses: previous sync event in the thread (or spawn event of the thread, or -1)
+	nextSync := make([]int, n)
 	for i, e := range l.events {
 		if e.kind == evSpawn {
-			if f, ok := first[e.child]; ok {
-				cons = append(cons, tt.Ult(ts[i], ts[f]))
-			}
+			spawnOf[e.child] = i
 		}
 	}
-	// channel edges: k-th send happens before k-th receive completes
+	for i, e := range l.events {
+		prevSync[i], nextSync[i] = -1, -1
+		if isSync(e.kind) {
+			if p, ok := lastSync[e.thread]; ok {
+				cons = append(cons, tt.Ult(ts[p], ts[i]))
+			} else {
+				firstSync[e.thread] = i
+				if sp, ok := spawnOf[e.thread]; ok {
+					cons = append(cons, tt.Ult(ts[sp], ts[i]))
+				}
+			}
+			lastSync[e.thread] = i
+			continue
+		}
+		if p, ok := lastSync[e.thread]; ok {
+			prevSync[i] = p
+		} else if sp, ok := spawnOf[e.thread]; ok {
+			prevSync[i] = sp
+		}
+	}
+	next := map[int]int{}
+	for i := n - 1; i >= 0; i-- {
+		e := l.events[i]
+		if isSync(e.kind) {
+			next[e.thread] = i
+		} else if nx, ok := next[e.thread]; ok {
+			nextSync[i] = nx
+		}
+	}
+	// channel edges: k-th send happens before the k-th receive completes
 	sends := map[*ChanVal][]int{}
 	recvs := map[*ChanVal][]int{}
 	for i, e := range l.events {
@@ -277,16 +300,13 @@ func (ex *Exec) raceCheck(name string) {
 		thread     int
 	}
 	var secs []section
-	open := map[*Cell][]int{} // indices into secs of open sections
-	leaks := 0
+	open := map[*Cell][]int{}
 	for i, e := range l.events {
 		switch e.kind {
 		case evLock, evRLock:
-			// self-deadlock: this logical thread already holds the mutex exclusively (or asks for
-			// exclusive access while holding it)
 			for _, si := range open[e.mu] {
-				s := secs[si]
-				if s.thread == e.thread && (s.excl || e.kind == evLock) {
+				sct := secs[si]
+				if sct.thread == e.thread && (sct.excl || e.kind == evLock) {
 					ex.reportConcurrency(h, "no-deadlock", fmt.Sprintf("thread %s acquires a mutex it already holds at %s", l.threads[e.thread].tag, e.where))
 				}
 			}
@@ -309,29 +329,23 @@ func (ex *Exec) raceCheck(name string) {
 			open[e.mu] = append(os[:found:found], os[found+1:]...)
 		}
 	}
+	leaks := 0
 	for _, os := range open {
 		leaks += len(os)
 	}
 	if leaks > 0 {
 		ex.reportConcurrency(h, "no-lock-leak", fmt.Sprintf("%d critical section(s) never released", leaks))
 	}
-	// section membership of every event: a section covers events between start and end that
-	// are ordered after start and before end by program/spawn order; we use the timestamp
-	// constraints start < e < end only for the thread(s) that perform start and end.
-	// mutual exclusion between sections of different logical threads
 	for i := 0; i < len(secs); i++ {
 		for j := i + 1; j < len(secs); j++ {
 			a, b := secs[i], secs[j]
-			if a.mu != b.mu || (!a.excl && !b.excl) || a.end < 0 || b.end < 0 {
-				continue
-			}
-			if a.thread == b.thread {
+			if a.mu != b.mu || (!a.excl && !b.excl) || a.end < 0 || b.end < 0 || a.thread == b.thread {
 				continue
 			}
 			cons = append(cons, tt.BOr(tt.Ult(ts[a.end], ts[b.start]), tt.Ult(ts[b.end], ts[a.start])))
 		}
 	}
-	// conflicting accesses
+	// conflicting accesses, grouped by location
 	type acc struct {
 		i     int
 		write bool
@@ -342,28 +356,28 @@ func (ex *Exec) raceCheck(name string) {
 			byLoc[e.loc] = append(byLoc[e.loc], acc{i, e.kind == evWrite})
 		}
 	}
-	// whole-array accesses (idx -1, from copy/append) conflict with every element access
 	type pair struct{ a, b int }
 	var cands []pair
-	addPairs := func(as []acc, bs []acc) {
-		seen := map[string]bool{}
-		for _, x := range as {
-			for _, y := range bs {
-				if x.i >= y.i && &as[0] == &bs[0] {
+	seenPair := map[string]bool{}
+	addPairs := func(as []acc, bs []acc, same bool) {
+		for xi, x := range as {
+			for yi, y := range bs {
+				if same && xi >= yi {
 					continue
 				}
 				if !x.write && !y.write {
 					continue
 				}
-				ex1, ey := l.events[x.i], l.events[y.i]
-				if ex1.thread == ey.thread {
+				ea, eb := l.events[x.i], l.events[y.i]
+				if ea.thread == eb.thread {
 					continue
 				}
-				key := fmt.Sprintf("%d/%d/%v/%v/%s/%s", ex1.thread, ey.thread, x.write, y.write, ex1.where, ey.where)
-				if seen[key] {
+				// accesses in the same pair of segments are equivalent for the ordering question
+				key := fmt.Sprintf("%d/%d/%d/%d/%d/%d", ea.thread, prevSync[x.i], nextSync[x.i], eb.thread, prevSync[y.i], nextSync[y.i])
+				if seenPair[key] {
 					continue
 				}
-				seen[key] = true
+				seenPair[key] = true
 				cands = append(cands, pair{x.i, y.i})
 			}
 		}
@@ -375,19 +389,33 @@ func (ex *Exec) raceCheck(name string) {
 	sort.Slice(keys, func(i, j int) bool { return byLoc[keys[i]][0].i < byLoc[keys[j]][0].i })
 	for _, k := range keys {
 		as := byLoc[k]
-		addPairs(as, as)
+		addPairs(as, as, true)
 		if k.arr != nil && k.idx >= 0 {
 			if whole, ok := byLoc[locKey{arr: k.arr, idx: -1}]; ok {
-				addPairs(as, whole)
+				addPairs(as, whole, false)
 			}
 		}
 	}
 	h.mu.Lock()
 	h.Obligations += len(cands)
 	h.mu.Unlock()
+	ta, tb := tt.Var("ts!"+name+"!a", W), tt.Var("ts!"+name+"!b", W)
+	between := func(t *Term, i int) []*Term {
+		var c []*Term
+		if p := prevSync[i]; p >= 0 {
+			c = append(c, tt.Ult(ts[p], t))
+		}
+		if nx := nextSync[i]; nx >= 0 {
+			c = append(c, tt.Ult(t, ts[nx]))
+		}
+		return c
+	}
 	reported := map[string]bool{}
 	for _, p := range cands {
-		q := append(append([]*Term(nil), cons...), tt.Eq(ts[p.a], ts[p.b]))
+		q := append([]*Term(nil), cons...)
+		q = append(q, between(ta, p.a)...)
+		q = append(q, between(tb, p.b)...)
+		q = append(q, tt.Eq(ta, tb))
 		r, _ := ex.solver.Check(q, false, nil, nil)
 		switch r {
 		case Unsat:
@@ -409,7 +437,7 @@ func (ex *Exec) raceCheck(name string) {
 	}
 	h.mu.Lock()
 	if len(h.Samples) < 6 {
-		h.Samples = append(h.Samples, fmt.Sprintf("race encoding %s: %d events, %d logical threads, %d critical sections, %d candidate pairs", name, n, len(l.threads), len(secs), len(cands)))
+		h.Samples = append(h.Samples, fmt.Sprintf("race encoding %s: %d events (%d synchronisation events with timestamp variables), %d logical threads, %d critical sections, %d segment pairs queried", name, n, len(ts), len(l.threads), len(secs), len(cands)))
 	}
 	h.mu.Unlock()
 }
